@@ -995,9 +995,13 @@ class TermCanvas(Canvas):
         if lines == 0:
             lines = 1
 
+        if not self.scrollregion_start <= row <= self.scrollregion_end:
+            # outside the scrolling region: ignored
+            return
+
         while lines > 0:
-            self.term.insert(row, self.empty_line())
             self.term.pop(self.scrollregion_end)
+            self.term.insert(row, self.empty_line())
             lines -= 1
 
     def remove_lines(self, row: int | None = None, lines: int = 1) -> None:
@@ -1013,6 +1017,10 @@ class TermCanvas(Canvas):
 
         if lines == 0:
             lines = 1
+
+        if not self.scrollregion_start <= row <= self.scrollregion_end:
+            # outside the scrolling region: ignored
+            return
 
         while lines > 0:
             self.term.pop(row)
